@@ -1,4 +1,4 @@
-CONSTANTS DBs <- DB2 Keys <- Key2 Vals <- Val2 MaxFlush = 2 MaxDrops = 1 DropsFirst = FALSE
+CONSTANTS DBs <- DB2 Keys <- Key2 Vals <- Val1 MaxFlush = 2 MaxDrops = 2 DropsFirst = FALSE
 SPECIFICATION PSpec
 INVARIANTS CrashConsistent CrashConsistentEverywhere TypeOK
 CHECK_DEADLOCK FALSE
